@@ -407,3 +407,9 @@ pub mod tests {
         assert_eq!(normalize_label("  FooİBAR  ", Case::Preserve), "FooİBAR");
     }
 }
+
+/// Verification hook: the private window shifter.
+#[cfg(comrak_verif)]
+pub fn verif_shift_buf_left(buf: &mut [u8], n: usize) {
+    shift_buf_left(buf, n)
+}
